@@ -49,6 +49,10 @@ func Child(args []string) int {
 		out.Write(b)
 		out.WriteByte('\n')
 		out.Flush()
+		if res["exiting"] == true {
+			// a job left a goroutine stuck inside the library: this process cannot be reused
+			os.Exit(0)
+		}
 	}
 	return 0
 }
@@ -80,6 +84,7 @@ func runChildSeq(role string, jobs []map[string]any, idx []int, res []map[string
 	pos := 0
 	for pos < len(idx) {
 		cmd := exec.Command("sh", "-c", fmt.Sprintf("ulimit -v %d; exec %s --child %s", memLimitKB, self, role))
+		cmd.Env = append(os.Environ(), "GOMAXPROCS=1", "GOGC=400")
 		stdin, _ := cmd.StdinPipe()
 		stdout, _ := cmd.StdoutPipe()
 		var stderr bytes.Buffer
@@ -130,6 +135,10 @@ func runChildSeq(role string, jobs []map[string]any, idx []int, res []map[string
 				}
 				res[idx[pos]] = r
 				pos++
+				if r["exiting"] == true {
+					alive = false
+					break
+				}
 				continue
 			}
 			// child died on this job
